@@ -8,6 +8,8 @@
 //   --extra hunt     property-level oracle on the implementation: parallel result vs the
 //                    sequential result over many schedules, with shrinking
 //   --replay f.json  re-execute one configuration
+//   --extra fresh    deep-copy freshness of every Clone* method of the distribution packages (fresh.go)
+// Round 3: composite models (composite.go) in the correspondence (site comp, full kinds hmm-smix ...), race and hunt streams.
 package main
 
 import (
@@ -340,6 +342,7 @@ type RawCase struct {
 	Full  *FullCfg    `json:"full,omitempty"`
 	Saga  *SagaCfg    `json:"saga,omitempty"`
 	Num   *NumericCfg `json:"numeric,omitempty"`
+	Comp  *CompCfg    `json:"comp,omitempty"`
 	Out   string      `json:"out,omitempty"`
 	Panic string      `json:"panic,omitempty"`
 }
@@ -731,6 +734,8 @@ func corr(o Opts) {
 		g.fullCases(genFull(r.Split()))
 		g.sagaCases(genSaga(r.Split()))
 		g.numericCases(genNumeric(r.Split()))
+		g.compCases(genComp(r.Split()))
+		g.compCases(genComp(r.Split()))
 	}
 	g.chunkCases(r.Split(), 3*unit)
 	w.Extra["threads_observed"] = map[string]int{"parallel_steps": g.runs, "thread0_used": g.used0, "thread0_never_used": g.unused0, "some_worker_never_used": g.unusedAny}
@@ -761,6 +766,8 @@ func (g *gen) replayInto(rc *RawCase) {
 		g.sagaCases(rc.Saga)
 	case rc.Num != nil:
 		g.numericCases(rc.Num)
+	case rc.Comp != nil:
+		g.compCases(rc.Comp)
 	case rc.Em != nil && rc.Em.FailAt < 0:
 		g.emCases(rc.Em, 1)
 	case rc.Bw != nil && rc.Bw.FailRec < 0:
@@ -789,6 +796,8 @@ func main() {
 		errRateMain(o)
 	case o.Extra == "tpprobe":
 		tpProbeMain(o)
+	case o.Extra == "fresh":
+		freshMain(o)
 	case o.Replay != "":
 		replayMain(o)
 	default:
